@@ -10,7 +10,7 @@ ID = 'C11'
 RULE = ('operation histories write^n fin^m, n in 0..3 (thorough 0..5), m in 1..4 (thorough 1..5), every sequence of '
         'finalisations drawn from {close(), bare context-manager exit, a further `with writer: pass` block} exhaustively, for VbsWriter and IpmWriter, blocked and '
         'unblocked, on io.BytesIO and on real files in a private temporary directory; non-trivial = distinct history with '
-        'at least one record or two finalisations; plus random histories in which the caller moves the wrapped file object (seek) or calls write_many with an empty batch between finalisations')
+        'at least one record or two finalisations; plus random histories in which the caller moves the wrapped file object (seek) calls write_many with an empty batch, or leaves a with-block through an exception, between finalisations')
 EXHAUSTIVE = {'quick': True, 'thorough': True}
 ASSUMPTIONS = ['writes after a close and closing the wrapped file object directly are outside the property']
 MSG = {'MTI': '1144', 'DE2': '4444555566667777', 'DE3': '111111', 'DE4': 9999, 'DE48': '0002003abc'}
@@ -36,8 +36,8 @@ def gen(rng, tier):
         lens = rng.choice([[5], [1010, 3], [1500, 700], [1004, 1008, 7], [300] * 8, [1012], [1008]])
         toks = [rng.choice('CXR')]
         for _ in range(rng.randint(1, 4)):
-            toks.append(rng.choice(['C', 'X', 'R', 'E', 'T%d' % rng.choice([0, 1, 4, 1012, 1014, 1015, 2028, 3000, rng.randrange(0, 2500)])]))
-        if not any(t.startswith('T') for t in toks):
+            toks.append(rng.choice(['C', 'X', 'R', 'Z', 'Z', 'E', 'T%d' % rng.choice([0, 1, 4, 1012, 1014, 1015, 2028, 3000, rng.randrange(0, 2500)])]))
+        if not any(t.startswith('T') for t in toks) and i % 3:
             toks.insert(1, 'T%d' % rng.choice([4, 1014, 2028]))
         if toks[-1].startswith('T'):
             toks.append(rng.choice('CXR'))
@@ -77,6 +77,12 @@ def run_history(case, fins):
                 f.seek(int(x[1:]))
             elif x == 'E':                 # write_many of nothing (an empty batch): no record is written
                 w.write_many(iter(()))
+            elif x == 'Z':                 # the with-block is left through an exception
+                try:
+                    with w:
+                        raise KeyError('the body of the with block failed')
+                except KeyError:
+                    pass
             elif x == 'C':
                 w.close()
             elif x == 'X':
@@ -116,7 +122,7 @@ def model_lines(case, io_):
     rs = recs(case)
     if case.get('touch'):
         # write_many(()) is a loop over nothing: no operation of the model
-        return ['vbs_write2 %s %s' % ('1' if case['blocked'] else '0', ','.join(['W' + (r.hex() or '_') for r in rs] + [('X' if x == 'R' else x) for x in case['fins'] if x != 'E']))]
+        return ['vbs_write2 %s %s' % ('1' if case['blocked'] else '0', ','.join(['W' + (r.hex() or '_') for r in rs] + [('X' if x in ('R', 'Z') else x) for x in case['fins'] if x != 'E']))]
     return ['vbs_write %s %s' % ('1' if case['blocked'] else '0', ','.join(['W' + (r.hex() or '_') for r in rs] + [('X' if x == 'R' else x) for x in case['fins']]))]
 
 
